@@ -66,14 +66,17 @@ type Conn struct {
 	// CancelIdentity: injected failures are errors that wrap context.Canceled (a connection pool that gives up because
 	// the context is done) instead of an anonymous error: what failed is the same, only the error's identity differs
 	CancelIdentity bool
-	faults         map[int]bool // primitive sequence numbers that fail
-	FaultsHit      int
-	FaultKinds     []string
-	Unmodelled     []string
-	txs            []*Tx
-	Closed         bool
-	UseAfterEnd    int // statements issued on a finished transaction
-	RedundantEnd   int // commit/rollback on an already finished transaction (harmless in pgx; counted)
+	// SQLState, if set, makes injected failures *pgconn.PgError values with that code (40001 serialization_failure,
+	// 40P01 deadlock_detected, 57014 query_canceled ...): what a real server reports for a statement it refuses
+	SQLState     string
+	faults       map[int]bool // primitive sequence numbers that fail
+	FaultsHit    int
+	FaultKinds   []string
+	Unmodelled   []string
+	txs          []*Tx
+	Closed       bool
+	UseAfterEnd  int // statements issued on a finished transaction
+	RedundantEnd int // commit/rollback on an already finished transaction (harmless in pgx; counted)
 }
 
 func (s *Server) Connect() *Conn { return &Conn{srv: s, faults: map[int]bool{}} }
@@ -101,6 +104,9 @@ func (c *Conn) PendingFaults() bool {
 var ErrInjected = errors.New("pgfake: injected failure")
 
 func (c *Conn) injected() error {
+	if c.SQLState != "" {
+		return fmt.Errorf("pgfake: injected failure: %w", &pgconn.PgError{Severity: "ERROR", Code: c.SQLState, Message: "pgfake: injected failure"})
+	}
 	if c.CancelIdentity {
 		return fmt.Errorf("pgfake: injected failure: %w", context.Canceled)
 	}
@@ -129,7 +135,7 @@ func (c *Conn) BeginTx(ctx context.Context, opts pgx.TxOptions) (pgx.Tx, error) 
 		return nil, errors.New("pgfake: connection closed")
 	}
 	if c.prim("begin", len(c.txs)) {
-		return nil, ErrInjected
+		return nil, c.injected()
 	}
 	tx := &Tx{c: c, id: len(c.txs), overlay: map[string][]byte{}}
 	c.txs = append(c.txs, tx)
@@ -194,7 +200,7 @@ func (t *Tx) stmtPre(kind string) error {
 	}
 	if t.c.prim(kind, t.id) {
 		t.aborted = true
-		return ErrInjected
+		return t.c.injected()
 	}
 	if t.aborted {
 		return errors.New("ERROR: current transaction is aborted, commands ignored until end of transaction block (SQLSTATE 25P02)")
@@ -352,7 +358,7 @@ func (t *Tx) Rollback(ctx context.Context) error {
 	// pgx: a transaction is closed after any Rollback attempt, and its writes are gone either way
 	t.closed = true
 	if fail {
-		return ErrInjected
+		return t.c.injected()
 	}
 	return nil
 }
@@ -422,7 +428,7 @@ func (r *Rows) Next() bool {
 	// fetching a row is a primitive that can fail: the result set ends prematurely, Err() reports it
 	if r.t.c.prim("next", r.t.id) {
 		r.closed = true
-		r.err = ErrInjected
+		r.err = r.t.c.injected()
 		r.t.aborted = true
 		return false
 	}
@@ -438,8 +444,8 @@ func (r *Rows) Scan(dest ...any) error {
 	}
 	if r.t.c.prim("scan", r.t.id) {
 		r.closed = true // pgx closes the rows on a scan error
-		r.err = ErrInjected
-		return ErrInjected
+		r.err = r.t.c.injected()
+		return r.err
 	}
 	row := r.data[r.pos-1]
 	src := [][]byte{row[1]}
